@@ -477,7 +477,7 @@ void version_effects_of_interrupted_sync(World &W, Peer &p, Belief &b, const Exc
 	if (w.downgraded && p.consumed >= from + 8)
 		b.version = w.version_after;
 	else if (b.version > 0 && (w.downgraded || (w.kind == WK_ERR_PDU && w.err_code == 4 && w.err_ver >= 0 && w.err_ver < b.version) ||
-				   (!x.at_query.has_session && (x.closes || w.kind == WK_INCOMPLETE))))
+				   (!x.at_query.has_session && (x.closes || p.peer_closed || w.kind == WK_INCOMPLETE))))
 		p.may_downgrade = true;
 }
 
@@ -1365,7 +1365,7 @@ void sync_exit_locked(World &W, int si, int rc)
 			p.expect_immediate_open = true;
 			W.ctx.count("probe_downgrade_hangup");
 		}
-		else if (x.closes && !x.at_query.has_session && b.version > 0) {
+		else if ((x.closes || p.peer_closed) && !x.at_query.has_session && b.version > 0) {
 			// the cache hung up before a session existed, after sending something the client could not use as an answer
 			// (only a Serial Notify, a fragment, a stream garbled by an interrupted read): the statement neither demands
 			// nor forbids the downgrade here
